@@ -152,9 +152,22 @@ func runRoots(c *core.Ctx) {
 	var fn *ssa.Function
 	var h *ssa.BasicBlock
 	for _, f := range sharedStoreFuncs(c) {
-		// the function works on an index it returns changed: (types.Index, ...) results, or a result record holding it
+		// the function works on an index it returns changed: (types.Index, ...) results, or a result record holding it — or
+		// it is the mark phase such a function hands its index to (marks := repoGCMark(repo, conf, index, locked))
 		if !returnsIndex(f) {
-			continue
+			markStep := false
+			for _, site := range c.P.Callers(f) {
+				if g := site.Parent(); g != nil && site.Common().StaticCallee() == f && returnsIndex(g) && r.FamilyOfFunc(g) == nil {
+					for _, a := range site.Common().Args {
+						if isNamed(a.Type(), r.TypesPath, "Index") {
+							markStep = true
+						}
+					}
+				}
+			}
+			if !markStep {
+				continue
+			}
 		}
 		for _, b := range f.Blocks {
 			for _, in := range b.Instrs {
